@@ -136,16 +136,17 @@ inductive Piece where
 /-- `char::from_u32` succeeds -/
 def isScalar (c : Int) : Bool := (0 ≤ c && c ≤ 0xD7FF) || (0xE000 ≤ c && c ≤ 0x10FFFF)
 
-/-- body of the loop of `implode` for one element `i : isize` (CURRENT tree):
+/-- body of the loop of `implode` for one element `i : isize` in the tree AS FOUND (before 496d12c):
 `if let Ok(b) = u8::try_from(-i) { push b } else { u32::try_from(i).ok().and_then(char::from_u32) … }` -/
-def implodeStep (i : Int) : P Piece := do
+def implodeStepAsFound (i : Int) : P Piece := do
   let n ← ineg i
   if 0 ≤ n ∧ n ≤ 255 then pure (.byte n.toNat)
   else if isScalar i then pure (.char i.toNat) else pure .err
 
-/-- the repaired body (design/fixes/C05-implode-negate-overflow.diff):
-`i.checked_neg().and_then(|n| u8::try_from(n).ok())` -/
-def implodeStepFixed (i : Int) : P Piece :=
+/-- body of the loop of `implode` in the CURRENT tree (repaired by 496d12c,
+design/fixes/C05-implode-negate-overflow.diff):
+`if let Some(b) = i.checked_neg().and_then(|n| u8::try_from(n).ok()) { push b } else { … }` -/
+def implodeStep (i : Int) : P Piece :=
   if i ≠ IMIN ∧ 0 ≤ -i ∧ -i ≤ 255 then pure (.byte (-i).toNat)
   else if isScalar i then pure (.char i.toNat) else pure .err
 
@@ -200,8 +201,9 @@ def oddBackslashes (before : List Char) : Bool :=
     | r => r
   (b.takeWhile (· = '\\')).length % 2 = 1
 
-/-- inner loop of `space`: skip comment lines; `fixed` selects the repaired tree
-(design/fixes/C05-lexer-comment-at-eof-span.diff: `&self.i[self.i.len()..]` instead of `""`) -/
+/-- inner loop of `space`: skip comment lines; `fixed = true` is the CURRENT tree (repaired by
+5b5826b, design/fixes/C05-lexer-comment-at-eof-span.diff: `&self.i[self.i.len()..]`), `fixed = false`
+the tree as found (`unwrap_or((self.i, ""))`: the rest becomes the literal `""`) -/
 def commentLines (fixed : Bool) : Nat → List Char → Rem
   | 0, s => .suffix s
   | fuel + 1, s =>
